@@ -359,7 +359,7 @@ template<class T, class F, Form form>
                 }
                 bool const roundtrip = convert_back<F>(fn, fd) == xr;
                 vf::outcome(roundtrip ? "not_exact_but_converts_back" : "not_exact");
-                report(std::string("value/exact_ratio_not_reproduced/") + (roundtrip ? "converts_back_to_x" : "does_not_convert_back") + (within ? "/within_error_bound/" : "/beyond_error_bound/") + region(), id(),
+                report(std::string("value/exact_ratio_not_reproduced/") + (roundtrip ? "converts_back_to_x" : "does_not_convert_back") + (within ? "/within_error_bound/" : "/beyond_error_bound/") + region() + (fn.is_zero() ? "/res_zero" : (fd == Big(1) ? "/res_whole" : "/res_frac")), id(),
                        [&] { return detail0() + ", but x is exactly " + xr.str() + " with both components representable"; });
                 continue;
             }
